@@ -32,7 +32,9 @@ PARALLEL = True
 PROOF_TIMEOUT = 1500
 ALLOWED_AXIOMS = ()
 RULE = ('random histories of 3-10 operations over one random tree (depth<=5, fan-out<=4, Unicode names, names that '
-        "look like '..', '@@x', 'a%2Fb', leaves without __getitem__); paths mix existing/missing segments, '', '.', "
+        "look like '..', '@@x', 'a%2Fb', names that are NOT in a Unicode normal form / are case- or compatibility-"
+        "equivalent to a sibling (decomposed accents, jamo, ANGSTROM SIGN, CJK compatibility, ligatures, fullwidth, "
+        "default-ignorables), leaves without __getitem__); paths mix existing/missing segments, '', '.', "
         "'..', '@@v', percent-encoded and multi-byte text, trailing slashes; vroot absent / '/' / existing / missing / "
         'trailing slash / malformed; entry via PATH_INFO (direct + Router), matchdict traverse/subpath (str and tuple), '
         'traverse()/find_resource() (str and tuple, absolute and relative), Router without routes (request attributes), '
@@ -90,7 +92,13 @@ LEVEL_NOTE = ('Trusted: Coq kernel; the translator (mechanical control-flow rule
 facts = c02facts.facts
 
 # ------------------------------------------------------------------ generation
-NAMES = ['a', 'b', 'c', 'x', 'ab', 'A', 'é', '日本', 'a b', '%41', 'a%2Fb', '+', 'a:b', '\U0001f600', '~u']
+# text that some Unicode canonicaliser would rewrite (the property says names are looked up as decoded, code point
+# for code point): not in NFC (decomposed accent, conjoining jamo, ANGSTROM SIGN, CJK compatibility ideograph, two
+# combining marks in non-canonical order), not in NFD (precomposed), not in NFKC (ligature, fullwidth, superscript),
+# case-fold / case-map sensitive, default-ignorable and bidi code points, non-BMP, NUL-free controls
+UNORM = ['cafe\u0301', '\u1100\u1161', '\u212b', '\uf900', 'q\u0307\u0323', '\ufb01n', '\uff21', 'x\u00b2', 'Stra\u00dfe',
+         '\u0130', '\u03c2\u03c3', 'a\u200db', '\u202eab', '\u00c5', 'e\u0301\u0301', '\x7f', 'a\u00a0b']
+NAMES = ['a', 'b', 'c', 'x', 'ab', 'A', 'é', '日本', 'a b', '%41', 'a%2Fb', '+', 'a:b', '\U0001f600', '~u'] + UNORM[:9]
 WEIRD = ['..', '.', '@@v', '@@', '@x', '', 'a/b', '%', '%zz', 'http:', 'x?y', 'a#b', '\ud800', ' 1', '-0']
 SAFES = ['', '/', '%', "~!$&'()*+,;=:@", "~!$&'()*+,;=:@/", ':@', 'ab']
 
@@ -103,9 +111,24 @@ def gen_tree(rng, depth):
     n = rng.choice([1, 2, 2, 3, 3, 4])
     out = []
     for _ in range(n):
-        nm = rng.choice(WEIRD) if rng.random() < 0.12 else rng.choice(NAMES)
+        r = rng.random()
+        nm = rng.choice(WEIRD) if r < 0.12 else rng.choice(UNORM) if r < 0.22 else rng.choice(NAMES)
         out.append([nm, gen_tree(rng, depth - 1)])
+        if rng.random() < 0.06:
+            # a sibling whose name is canonically / compatibly / case-wise "the same" text, but other code points
+            alt = _variant(rng, nm)
+            if alt != nm:
+                out.append([alt, gen_tree(rng, depth - 1)])
     return out
+
+
+def _variant(rng, s):
+    import unicodedata
+    f = rng.choice(['NFC', 'NFD', 'NFKC', 'NFKD', 'lower', 'upper', 'casefold'])
+    try:
+        return unicodedata.normalize(f, s) if f.startswith('NF') else getattr(s, f)()
+    except Exception:
+        return s
 
 
 def node_at(tree, pos):
@@ -133,8 +156,11 @@ def gen_segments(rng, tree, start=None):
             nm, c = rng.choice(t)
             segs.append(nm)
             t = c
-        elif r < 0.68:
+        elif r < 0.66:
             segs.append(rng.choice(NAMES))            # probably missing
+            t = None
+        elif r < 0.68 and t:
+            segs.append(_variant(rng, rng.choice(t)[0]))   # an equivalent-looking spelling of an existing name
             t = None
         elif r < 0.76:
             segs.append('..')
@@ -964,7 +990,28 @@ def kinds(case, obs):
         if isinstance(p, str) and '@@' in p:
             ks.append('has-selector')
     ks.append('ops:%d' % len(case['ops']))
+    ks.append('tree-names:' + _name_class(case['tree']))
     return ks
+
+
+def _tree_names(t):
+    for nm, c in (t or []):
+        yield nm
+        yield from _tree_names(c)
+
+
+def _name_class(tree):
+    import unicodedata
+    names = [n for n in _tree_names(tree)]
+    try:
+        if any(unicodedata.normalize('NFC', n) != n for n in names):
+            return 'some-not-NFC'
+        if any(unicodedata.normalize('NFKC', n) != n or n.casefold() != n for n in names):
+            return 'some-not-NFKC-or-casefold'
+    except Exception:
+        return 'surrogates'
+    return 'all-normal' if any(ord(c) > 127 for n in names for c in n) else 'ascii-only'
+
 
 
 def describe(case):
@@ -1007,6 +1054,16 @@ def targeted(broken, disagreements, rng):
     for vr in ['/a', '/a/x', '/a/', '/b/x']:
         for pi in ['/q', '/x/q/r', '/@@v/s', '/x/y/z/w']:
             out.append({'tree': t, 'ops': [req(pi, vr)]})
+    # names that a Unicode canonicaliser would rewrite: under a virtual root, via traversal_path(_info), via the
+    # traverse= route, via PATH_INFO and via tuple paths
+    for nm in UNORM:
+        tt = [[nm, [['x', None]]], ['a', None]]
+        w = wsgi('/' + nm)
+        out.append({'tree': tt, 'ops': [req('/x', w), req(w + '/x'), {'k': 'tpi', 'path': w + '/x'},
+                                        {'k': 'tp', 'path': '/' + quote_seg(rng, nm)},
+                                        {'k': 'route', 'path_info': '/t' + w + '/x', 'vroot': None},
+                                        {'k': 'router', 'path_info': w, 'vroot': w},
+                                        {'k': 'find', 'start': [], 'path': ['', nm, 'x']}]})
     for d in disagreements[:20]:
         c = d.get('case')
         if c:
